@@ -41,10 +41,16 @@ FORBIDDEN = re.compile(
 # ---------------------------------------------------------------------------------------
 # stream spec: (name, shardable, profile) ; profile "release" unless stated
 PROPS = {
-    "C01": dict(streams=["tbl"], exhaustive="",
-                nontrivial="history with at least one add"),
-    "C02": dict(streams=["tbl"], exhaustive="", nontrivial="history with at least one add"),
+    "C01": dict(streams=["tbl", "fix"], exhaustive="",
+                nontrivial="history with at least one operation"),
+    "C02": dict(streams=["tbl", "fix"], exhaustive="", nontrivial="history with at least one operation"),
     "C03": dict(streams=["tbl"], exhaustive="", nontrivial="history with at least one add"),
+    "C04": dict(streams=["ent", "tbl", "fix"], exhaustive="",
+                nontrivial="any entry / any history with an operation"),
+    "C11": dict(streams=["ent", "fix", "tbl"], exhaustive="all subsets and all orders/repetitions up to length 4 (3 for the 8-option cache node) of each option family; all 2^7 subsets and all ordered triples of the TCPA server builders; ordered pairs/triples of the FADT exclusive setters",
+                nontrivial="at least one option call"),
+    "C12": dict(streams=["fix", "ent", "tbl"], exhaustive="SLIT 0..3 localities: all op sequences up to length 3 (2 for 3x3) over all cell pairs and 2 values",
+                nontrivial="at least one cell assignment"),
     "C05": dict(streams=["tbl"], exhaustive="", nontrivial="history with at least one add"),
     "C07": dict(streams=["pkglen", "pkgblk"], exhaustive="all 2^28 lengths x both forms via the hook (block digests), in both tiers",
                 nontrivial="length > 0"),
@@ -143,24 +149,48 @@ def scan_forbidden():
     return hits
 
 
+def prop_modules(pid):
+    """Acpi.Props.<pid> and every module under Acpi/Props/<pid>/"""
+    mods = []
+    p = os.path.join(LEAN, "Acpi", "Props", pid + ".lean")
+    if os.path.exists(p):
+        mods.append(("Acpi.Props." + pid, p))
+    d = os.path.join(LEAN, "Acpi", "Props", pid)
+    if os.path.isdir(d):
+        for f in sorted(os.listdir(d)):
+            if f.endswith(".lean"):
+                mods.append(("Acpi.Props.%s.%s" % (pid, f[:-5]), os.path.join(d, f)))
+    return mods
+
+
 def theorems_of(pid):
-    src = strip_comments(open(os.path.join(LEAN, "Acpi", "Props", pid + ".lean")).read())
-    ns = re.search(r"^namespace\s+(\S+)", src, flags=re.M).group(1)
-    names = re.findall(r"^\s*theorem\s+(\S+)", src, flags=re.M)
-    return ns, names
+    """fully qualified names of every theorem declared in the property's modules"""
+    names = []
+    for _, path in prop_modules(pid):
+        src = strip_comments(open(path).read())
+        ns = None
+        for line in src.splitlines():
+            m = re.match(r"^namespace\s+(\S+)", line)
+            if m:
+                ns = m.group(1)
+            m = re.match(r"^\s*(?:private\s+|protected\s+)?theorem\s+(\S+)", line)
+            if m and ns:
+                names.append(ns + "." + m.group(1))
+    return names
 
 
 def audit(pid):
-    ns, names = theorems_of(pid)
+    names = theorems_of(pid)
     if not names:
         raise Violation("no theorems found", "Props/%s.lean declares no theorem" % pid, False)
     d = os.path.join(CACHE, "audit")
     os.makedirs(d, exist_ok=True)
     p = os.path.join(d, pid + ".lean")
     with open(p, "w") as f:
-        f.write("import Acpi.Props.%s\n" % pid)
+        for mod, _ in prop_modules(pid):
+            f.write("import %s\n" % mod)
         for n in names:
-            f.write("#print axioms %s.%s\n" % (ns, n))
+            f.write("#print axioms %s\n" % n)
     rc, out = sh(["lake", "env", "lean", p], cwd=LEAN, timeout=900)
     if rc != 0:
         raise Violation("axiom audit failed to run", out[-4000:], False)
@@ -169,7 +199,7 @@ def audit(pid):
         axs = [a.strip() for a in (m.group(3) or "").split(",") if a.strip()]
         res[m.group(1)] = axs
     bad = {k: v for k, v in res.items() if not set(v) <= ALLOWED_AXIOMS}
-    missing = [n for n in names if ns + "." + n not in res]
+    missing = [n for n in names if n not in res]
     if bad or missing:
         raise Violation("axiom audit: disallowed axioms or missing theorems",
                         "disallowed: %r\nmissing: %r\n%s" % (bad, missing, out[-3000:]), False)
@@ -299,8 +329,10 @@ def nontrivial(stream, case_line):
     body = case_line.split(" ", 1)[1] if " " in case_line else ""
     if stream in ("pkglen", "pkgblk"):
         return not body.startswith("0 ")
-    if stream in ("tbl", "tblbig"):
+    if stream in ("tbl", "tblbig", "fix"):
         return " ; " in case_line
+    if stream == "ent":
+        return not case_line.endswith("/-")
     if stream == "int":
         return body.split(" ")[-1] not in ("0", "1")
     return len(body.strip()) > 0 and body.strip() != "-"
@@ -350,7 +382,7 @@ def main():
     try:
         lock = build_lock()
         try:
-            build_lean(["Acpi.Props." + pid, "driver"])
+            build_lean([m for m, _ in prop_modules(pid)] + ["driver"])
             for prof in profiles:
                 build_harness(prof)
         finally:
@@ -360,9 +392,10 @@ def main():
         cov["discharged"] = len(axioms)
         cov["theorems"] = {k: v for k, v in sorted(axioms.items())}
         if tier == "thorough":
-            rc, out = sh(["lake", "env", "leanchecker", "Acpi.Props." + pid], cwd=LEAN, timeout=3000)
-            if rc != 0:
-                raise Violation("leanchecker rejected Acpi.Props." + pid, out[-4000:], False)
+            for mod, _ in prop_modules(pid):
+                rc, out = sh(["lake", "env", "leanchecker", mod], cwd=LEAN, timeout=3000)
+                if rc != 0:
+                    raise Violation("leanchecker rejected " + mod, out[-4000:], False)
             cov["leanchecker"] = "ok"
 
         if replay:
